@@ -17,6 +17,8 @@ for tc in $TCS; do
       rustup run "$tc" rustc $flags -o "$out" "$src" 2>"$out.rustc.log" || { cat "$out.rustc.log"; exit 1; }
       rm -f "$out.trace"
     fi
+    # plain name = the build with the first (default) toolchain
+    if [ "$tc" = "${TCS%% *}" ]; then ln -sf "$name-$tc" "progs/$name"; fi
     if [ -x "$REFTRACE" ] && [ ! -f "$out.trace" ] && [ ! -f "progs-src/$name.notrace" ]; then
       "$REFTRACE" "$out" "$out.trace.tmp" && mv "$out.trace.tmp" "$out.trace" && mv "$out.trace.tmp.stdout" "$out.stdout" && mv "$out.trace.tmp.stderr" "$out.stderr"
     fi
